@@ -130,6 +130,9 @@ class Report:
         nontriv = {o.key for o in obs if o.nontrivial}
         sample = rnd.sample(discharged, min(8, len(discharged)))
         sample += [o for o in obs if o.status != "discharged"][:6]
+        # the folds (partial evaluation over witness sets) say in their detail what they covered: always listed
+        folds = [o for o in discharged if ("witness" in o.key or "witness" in o.detail) and o not in sample]
+        sample += folds[:40]
         ev = {
             "property_id": self.pid,
             "tier": self.tier,
